@@ -109,6 +109,44 @@ static void gen_structured(phist *h, const vh_cipher *c, uint64_t k, vh_rng *r)
     phist_annotate(h);
 }
 
+/* large single calls (64 KiB .. 1 MiB+): sizes the history pool cannot hold */
+static void big_case(uint64_t idx)
+{
+    vh_rng r; const vh_cipher *c = &vh_ciphers[idx % CIPH_N];
+    int be = (int)((idx / CIPH_N) % (uint64_t)(maxbe[c->id] + 1)), dec = (int)((idx / 9) & 1), inplace = (int)((idx / 18) & 1);
+    static const uint32_t NB[] = {4096, 4097, 8191, 65535, 65536, 65537, 70001, 131073};
+    uint32_t nb = NB[(idx / 36) % 8], b; size_t len = (size_t)nb * c->bb;
+    uint8_t key[48], *in = malloc(len), *out = malloc(len), *tw = malloc(len), *exp_ = malloc(len);
+    unsigned klen, rounds = 5 + (unsigned)(idx % 4);
+    vh_handle h; char pfx[160], d[300]; int ret;
+    Skinny128Key_t k128; Skinny64Key_t k64; MantisKey_t km;
+    vh_rng_seed(&r, vh_seed, 0xB1, idx);
+    snprintf(d, sizeof(d), "{\"driver\":\"drv_par\",\"prop\":\"%s\",\"mode\":\"big\",\"seed\":%llu,\"case\":%llu,\"variant\":\"%s\"}", prop, (unsigned long long)vh_seed, (unsigned long long)idx, vh_variant);
+    snprintf(pfx, sizeof(pfx), "%s:%s-parallel:%s:large-call", prop, c->name, vh_backend_names[be]);
+    vh_case_begin(idx, pfx, d);
+    klen = c->id == CIPH_MANTIS ? 16 : c->bb * (1 + vh_below(&r, 3));
+    vh_rand_bytes(&r, key, 48); vh_rand_bytes(&r, in, len); vh_rand_bytes(&r, tw, len);
+    memset(&h, 0, sizeof(h)); vh_set_cap(be);
+    c->par_init(&h); c->par_set_key(&h, key, klen, rounds, dec ? MANTIS_DECRYPT : MANTIS_ENCRYPT);
+    if (c->id == CIPH_S128) { skinny128_set_key(&k128, key, klen); for (b = 0; b < nb; ++b) (dec ? skinny128_ecb_decrypt : skinny128_ecb_encrypt)(exp_ + 16 * (size_t)b, in + 16 * (size_t)b, &k128); }
+    else if (c->id == CIPH_S64) { skinny64_set_key(&k64, key, klen); for (b = 0; b < nb; ++b) (dec ? skinny64_ecb_decrypt : skinny64_ecb_encrypt)(exp_ + 8 * (size_t)b, in + 8 * (size_t)b, &k64); }
+    else { mantis_set_key(&km, key, 16, rounds, dec ? MANTIS_DECRYPT : MANTIS_ENCRYPT); for (b = 0; b < nb; ++b) mantis_ecb_crypt_tweaked(exp_ + 8 * (size_t)b, in + 8 * (size_t)b, tw + 8 * (size_t)b, &km); }
+    if (inplace) memcpy(out, in, len);
+    vh_call_begin("parallel large call");
+    ret = ((dec && c->par_decrypt) ? c->par_decrypt : c->par_encrypt)(out, inplace ? out : in, tw, len, &h);
+    vh_call_end();
+    VH_COUNT("large_calls", 1); VH_COUNT("judged_blocks", nb); VH_MAXC("max_blocks_in_one_call", nb);
+    if (ret != 1 || memcmp(out, exp_, len)) {
+        size_t q = 0; char key_[200], dd[300]; while (q < len && out[q] == exp_[q]) ++q;
+        snprintf(dd, sizeof(dd), "{\"cipher\":\"%s\",\"backend\":\"%s\",\"blocks\":%u,\"decrypt\":%d,\"in_place\":%d,\"first_diff_block\":%lu,\"ret\":%d}", c->name, vh_backend_names[be], nb, dec, inplace, (unsigned long)(q / c->bb), ret);
+        snprintf(key_, sizeof(key_), "%s:%s-parallel:%s:large-call-differs-from-single-block-functions", prop, c->name, vh_backend_names[be]);
+        vh_violation(key_, dd, d);
+    }
+    if (vh_distinct(vh_hash(&idx, 8, vh_seed ^ 0xB1B1))) VH_COUNT("distinct_nontrivial_histories", 1);
+    c->par_cleanup(&h);
+    free(in); free(out); free(tw); free(exp_);
+}
+
 static void one_case(uint64_t idx)
 {
     vh_rng r;
@@ -242,7 +280,7 @@ int main(int argc, char **argv)
         if (maxbe[i] < 0) { printf("{\"type\":\"inconclusive\",\"reason\":\"cannot identify back end of %s\"}\n", vh_ciphers[i].name); return 2; }
     }
     if (!strcmp(vh_arg_mode, "model") && vh_shard == 0) check_parallel_size();
-    vh_run(one_case);
+    if (!strcmp(vh_arg_mode, "big")) vh_run(big_case); else vh_run(one_case);
     vh_finish();
     return 0;
 }
